@@ -45,8 +45,8 @@ inductive Cond where
 inductive Atom where
   /-- `uintYY_t t_k;` -/
   | declT
-  /-- `t_k = (uintYY_t)(wuffs_base__peek_uXXxe__no_bounds_check(iop));` -/
-  | peekT (n : Nat) (be : Bool)
+  /-- `t_k = (uintYY_t)(wuffs_base__peek_uXXxe__no_bounds_check(iop));` (XX = 8n) -/
+  | peekT (n yy : Nat) (be : Bool)
   /-- `iop += n;` -/
   | adv (n : Nat)
   /-- `uintYY_t t_k = *iop++;` -/
@@ -66,7 +66,7 @@ inductive Atom where
   /-- `*scratch |= ((uint64_t)(*iop++)) << num_bits;` (LE) / `… << (56 - num_bits);` (BE) -/
   | orByte (be : Bool)
   /-- `t_k = (uintYY_t)(*scratch);` (LE) / `… (*scratch >> (64 - 8n));` (BE) -/
-  | setT (n : Nat) (be : Bool)
+  | setT (n yy : Nat) (be : Bool)
   /-- `num_bits += 8u;` -/
   | nbInc
   /-- `*scratch |= ((uint64_t)(num_bits)) << 56;` (LE) / `*scratch |= (uint64_t)(num_bits);` (BE) -/
@@ -111,12 +111,12 @@ inductive Tm where
 open Tm Atom in
 /-- writeReadUxxAsUyy (behind the suspension point that writeBuiltinQuestionCall
 writes first), inside the braces of the assignment; points `k`, `k + 1` -/
-def readTmpl (n : Nat) (be : Bool) (k : Nat) : Tm :=
+def readTmpl (n yy : Nat) (be : Bool) (k : Nat) : Tm :=
   block [
     point k,
     atom declT,
     ifElse (.availGE n)
-      [atom (peekT n be), atom (adv n)]
+      [atom (peekT n yy be), atom (adv n)]
       [atom scratch0,
        point (k + 1),
        whileTrue [
@@ -126,7 +126,7 @@ def readTmpl (n : Nat) (be : Bool) (k : Nat) : Tm :=
          atom (if be then shr8 else shl8),
          atom (if be then shl8 else shr8),
          atom (orByte be),
-         ifThen (.nbEq (8 * n - 8)) [atom (setT n be), brk],
+         ifThen (.nbEq (8 * n - 8)) [atom (setT n yy be), brk],
          atom nbInc,
          atom (orNb be)]],
     atom store]
@@ -167,6 +167,30 @@ def callTmpl (j : Nat) (k : Nat) : List Tm :=
   [point k, atom callStatus] ++
   List.replicate j (ifThen .opaque [atom loadIop]) ++
   [ifThen .opaque [gotoSuspend]]
+
+/-- seeded/C04-m3: `scratch = 0;` moved behind the suspension point — what the
+resumed call then does to the partial value is `read_m3_loses_partial_value`
+in Props/C04Coro.lean -/
+def readTmplM3 (n yy : Nat) (be : Bool) (k : Nat) : Tm :=
+  open Tm Atom in
+  block [
+    point k,
+    atom declT,
+    ifElse (.availGE n)
+      [atom (peekT n yy be), atom (adv n)]
+      [point (k + 1),
+       atom scratch0,
+       whileTrue [
+         ifThen .empty [atom setShortRead, gotoSuspend],
+         atom scratchPtr,
+         atom (nbLoad be),
+         atom (if be then shr8 else shl8),
+         atom (if be then shl8 else shr8),
+         atom (orByte be),
+         ifThen (.nbEq (8 * n - 8)) [atom (setT n yy be), brk],
+         atom nbInc,
+         atom (orNb be)]],
+    atom store]
 
 /-! ## Skeleton text -/
 
@@ -227,7 +251,7 @@ def Kind.tmpl (kd : Kind) (k : Nat) : List Tm :=
   match kd with
   | .plain => [.atom .store]
   | .read8 => [read8Tmpl k]
-  | .read n be => [readTmpl n be k]
+  | .read n be => [readTmpl n 64 be k]
   | .skip1 => skip1Tmpl k
   | .skip => skipTmpl k
   | .write => writeTmpl k
@@ -238,5 +262,189 @@ def actTokens (c : Nat) : List String :=
   match Kind.ofCode c with
   | .plain => ["A"]
   | kd => showTms (kd.tmpl 0)
+
+/-! ## Semantics
+
+What one call of the coroutine's C function does to the things the templates
+touch.  `buf` is the reader's buffer `data.ptr[0 .. meta.wi)` of THIS call
+(`io2 = buf.length`), `iop` the read position in it; `scratch` is
+`self->private_data.s_f.scratch` — it lives in the object, so it is what a
+later call finds; `pt` is `coro_susp_point`.  Arithmetic is that of `uint64_t`
+(explicit `% 2^64`); a load beyond `io2` or a shift by 64 or more is undefined
+(`none`).
+
+Resuming: the function starts with `coro_susp_point = self->private_impl.p_f`
+and `switch (coro_susp_point) {` — control goes to `case pt:` wherever that
+label is, skipping everything before it and entering the blocks that contain
+it.  `seek = true` is that state: atoms do nothing, an `if` / `else` / loop is
+entered exactly when it contains the label, and `point pt` ends the search. -/
+
+structure CSt where
+  buf : List Nat
+  iop : Nat
+  scratch : Nat
+  t : Nat := 0
+  nb : Nat := 0
+  pt : Nat := 0
+  seek : Bool := false
+  /-- the values assigned by `store`, in order -/
+  dest : List Nat := []
+  /-- the value of the argument expression of skip / write_u8 -/
+  arg : Nat := 0
+  /-- `status.repr` is a suspension -/
+  short : Bool := false
+  deriving Repr, DecidableEq, Inhabited
+
+def valLE : List Nat → Nat
+  | [] => 0
+  | b :: r => b + 256 * valLE r
+
+def valBE (bs : List Nat) : Nat := bs.foldl (fun acc b => acc * 256 + b) 0
+
+/-- `wuffs_base__peek_uXXxe__no_bounds_check` on the next `n` bytes -/
+def peek (be : Bool) (bs : List Nat) : Nat := if be then valBE bs else valLE bs
+
+def u64 (x : Nat) : Nat := x % 2 ^ 64
+
+def Atom.exec : Atom → CSt → Option CSt
+  | .declT, s => some s
+  | .peekT n yy be, s =>
+    if s.iop + n ≤ s.buf.length then some { s with t := peek be ((s.buf.drop s.iop).take n) % 2 ^ yy } else none
+  | .adv n, s => some { s with iop := s.iop + n }
+  | .loadByteT, s =>
+    match s.buf[s.iop]? with
+    | some b => some { s with t := b, iop := s.iop + 1 }
+    | none => none
+  | .inc, s => some { s with iop := s.iop + 1 }
+  | .scratch0, s => some { s with scratch := 0 }
+  | .scratchPtr, s => some s
+  | .nbLoad be, s => some { s with nb := if be then s.scratch % 256 else s.scratch >>> 56 }
+  | .shl8, s => some { s with scratch := u64 (s.scratch <<< 8) }
+  | .shr8, s => some { s with scratch := s.scratch >>> 8 }
+  | .orByte be, s =>
+    match s.buf[s.iop]? with
+    | some b =>
+      -- the shift count is `num_bits` / `56 - num_bits` in uint32_t arithmetic
+      if s.nb ≤ 56 then
+        some { s with scratch := s.scratch ||| (b <<< (if be then 56 - s.nb else s.nb)), iop := s.iop + 1 }
+      else none
+    | none => none
+  | .setT n yy be, s => some { s with t := (if be then s.scratch >>> (64 - 8 * n) else s.scratch) % 2 ^ yy }
+  | .nbInc, s => some { s with nb := s.nb + 8 }
+  | .orNb be, s => some { s with scratch := u64 (s.scratch ||| (if be then s.nb else s.nb <<< 56)) }
+  | .store, s => some { s with dest := s.dest ++ [s.t] }
+  | .setShortRead, s => some { s with short := true }
+  | .scratchSetArg, s => some { s with scratch := u64 s.arg }
+  | .scratchSubAvail, s => some { s with scratch := s.scratch - (s.buf.length - s.iop) }
+  | .iopToEnd, s => some { s with iop := s.buf.length }
+  | .advScratch, s => some { s with iop := s.iop + s.scratch }
+  -- the writer and call templates are not interpreted here
+  | .setShortWrite, _ | .storeByte, _ | .saveRi, _ | .callStatus, _ | .loadIop, _ => none
+
+def Cond.eval : Cond → CSt → Option Bool
+  | .availGE n, s => some (decide (n ≤ s.buf.length - s.iop))
+  | .empty, s => some (s.iop == s.buf.length)
+  | .nbEq k, s => some (s.nb == k)
+  | .scratchGtAvail, s => some (decide (s.buf.length - s.iop < s.scratch))
+  | .opaque, _ => none
+
+inductive Out where
+  | normal (s : CSt)
+  | brk (s : CSt)
+  /-- `goto suspend;` — the epilogue stores `s.pt` in `p_f` -/
+  | susp (s : CSt)
+  deriving Repr, DecidableEq, Inhabited
+
+mutual
+def Tm.hasPoint (k : Nat) : Tm → Bool
+  | .atom _ => false
+  | .point j => j == k
+  | .ifThen _ t => hasPointL k t
+  | .ifElse _ t e => hasPointL k t || hasPointL k e
+  | .whileTrue b => hasPointL k b
+  | .brk => false
+  | .gotoSuspend => false
+  | .block b => hasPointL k b
+def hasPointL (k : Nat) : List Tm → Bool
+  | [] => false
+  | t :: r => t.hasPoint k || hasPointL k r
+end
+
+/-- `while (true) { body }`, at most `fuel` rounds -/
+def whileIter : Nat → (CSt → Option Out) → CSt → Option Out
+  | 0, _, _ => none
+  | fuel + 1, body, s =>
+    match body s with
+    | some (.normal s') => whileIter fuel body s'
+    | some (.brk s') => some (.normal s')
+    | o => o
+
+mutual
+/-- one statement; `fuel` bounds the rounds of every loop -/
+def Tm.exec (fuel : Nat) : Tm → CSt → Option Out
+  | .atom a, s => if s.seek then some (.normal s) else (a.exec s).map .normal
+  | .point k, s =>
+    if s.seek then (if s.pt == k then some (.normal { s with seek := false }) else some (.normal s))
+    else some (.normal { s with pt := k })
+  | .ifThen c t, s =>
+    if s.seek then (if hasPointL s.pt t then execL fuel t s else some (.normal s))
+    else
+      match c.eval s with
+      | some true => execL fuel t s
+      | some false => some (.normal s)
+      | none => none
+  | .ifElse c t e, s =>
+    if s.seek then
+      (if hasPointL s.pt t then execL fuel t s
+       else if hasPointL s.pt e then execL fuel e s
+       else some (.normal s))
+    else
+      match c.eval s with
+      | some true => execL fuel t s
+      | some false => execL fuel e s
+      | none => none
+  | .whileTrue b, s =>
+    if s.seek && !hasPointL s.pt b then some (.normal s)
+    else whileIter fuel (fun s' => execL fuel b s') s
+  | .brk, s => if s.seek then some (.normal s) else some (.brk s)
+  | .gotoSuspend, s => if s.seek then some (.normal s) else some (.susp s)
+  | .block b, s => execL fuel b s
+def execL (fuel : Nat) : List Tm → CSt → Option Out
+  | [], s => some (.normal s)
+  | t :: r, s =>
+    match t.exec fuel s with
+    | some (.normal s') => execL fuel r s'
+    | o => o
+end
+
+/-- what survives between two calls of the coroutine: `p_f` and the scratch
+word in the object, the reader's position, and the values stored so far -/
+structure Frame where
+  p : Nat := 0
+  scratch : Nat := 0
+  ri : Nat := 0
+  dest : List Nat := []
+  deriving Repr, DecidableEq, Inhabited
+
+/-- One call of the C function whose body is `body`, the reader's buffer
+holding `buf` (all the bytes of the stream so far): `true` = returned ok
+(`p_f = 0`), `false` = returned the suspension (`p_f = coro_susp_point`). -/
+def call (fuel : Nat) (body : List Tm) (buf : List Nat) (arg : Nat) (f : Frame) : Option (Bool × Frame) :=
+  let s0 : CSt := { buf := buf, iop := f.ri, scratch := f.scratch, pt := f.p, seek := f.p != 0,
+                    dest := f.dest, arg := arg }
+  match execL fuel body s0 with
+  | some (.normal s) => if s.seek then none else some (true, { p := 0, scratch := s.scratch, ri := s.iop, dest := s.dest })
+  | some (.susp s) => some (false, { p := s.pt, scratch := s.scratch, ri := s.iop, dest := s.dest })
+  | _ => none
+
+/-- drive the coroutine over a growing input: `avails` are the numbers of
+stream bytes available in the successive calls; stops at the first `ok` -/
+def drive (fuel : Nat) (body : List Tm) (stream : List Nat) (arg : Nat) : List Nat → Frame → Option (Bool × Frame)
+  | [], f => some (false, f)
+  | a :: r, f =>
+    match call fuel body (stream.take a) arg f with
+    | some (true, f') => some (true, f')
+    | some (false, f') => drive fuel body stream arg r f'
+    | none => none
 
 end WuffsVerif.CCoro
